@@ -282,7 +282,7 @@ const c12Rule = "case = Ed25519, n in 3..7, t in [n/2+1, n] (1/4 of the cases: a
 func TestC12_DSS(t *testing.T) {
 	ev := evFor("C12")
 	ev.Rule(c12Rule)
-	rcheck(t, 400, 10000, func(t *rapid.T) {
+	rcheck(t, 400, 60000, func(t *rapid.T) {
 		real := tier() == "thorough" && rapid.IntRange(0, 4).Draw(t, "realdkg") == 0
 		c12Case(t, ev, real)
 	})
